@@ -1,6 +1,8 @@
 import CJ.Drv.Loop
-/-! Driver for C07 (stub until the models are written). -/
+import CJ.Drv.Ingest
+/-! Driver for C07: the registration ingest model. -/
 open CJ.Drv
 
 def main : IO Unit := runDriver fun
+  | "c07" :: args => Ingest.handle args
   | _ => none
